@@ -1,15 +1,18 @@
+import TracklibVerif.Model.Heapq
 /-! Model of `priority_dict` (`tracklib/core/utils.py`): a `dict` key → priority plus a `heapq` list of
 `(priority, key)` tuples with lazy deletion of stale entries.
 
-`heapq` itself is not modelled: the heap is a list standing for a multiset of tuples and `heappop` removes a
-smallest tuple (Python tuple order: priority first, then key — for `Node` keys `Node.__lt__`, i.e. the id).
-What is modelled is the bookkeeping around it: `__setitem__` (push, or rebuild when the heap has grown to twice
-the dict), `pop_smallest` (pop until the popped entry is current), `del`. Keys are `Nat`. Core Lean only. -/
+The heap is the list `_heap` itself, maintained by the `heapq` functions of `Model/Heapq.lean` (`heapify` in
+`_rebuild_heap`, `heappush` in `__setitem__`, `heappop` in `pop_smallest`) under Python's tuple order `tlt`
+(priority first, then key — for `Node` keys `Node.__lt__`, i.e. the id). The dict is the list of its items in
+insertion order (assigning to an existing key keeps its place, a new key goes to the end, `del` removes in place),
+which is the order `_rebuild_heap` reads them in — so `_heap` agrees with the Python list position by position.
+Keys are `Nat`. Core Lean only. -/
 namespace TV.PDict
 variable {W : Type}
 
 structure PD (W : Type) where
-  dict : List (Nat × W)       -- the dict: key ↦ priority (keys unique by construction)
+  dict : List (Nat × W)       -- the dict items in insertion order (keys unique by construction)
   heap : List (W × Nat)       -- `_heap`
 deriving Repr
 
@@ -18,29 +21,27 @@ def lookup : List (Nat × W) → Nat → Option W
   | [], _ => none
   | (k', v) :: r, k => if k' = k then some v else lookup r k
 
+/-- `dict.__setitem__(k, v)`: in place for a key already present, at the end for a new key -/
+def dictSet : List (Nat × W) → Nat → W → List (Nat × W)
+  | [], k, v => [(k, v)]
+  | (k', v') :: r, k, v => if k' = k then (k', v) :: r else (k', v') :: dictSet r k v
+
 variable [LT W] [DecidableLT W]
 
 /-- Python's `(v1, k1) < (v2, k2)` on tuples -/
 def tlt (a b : W × Nat) : Bool :=
   decide (a.1 < b.1) || (!decide (b.1 < a.1) && decide (a.2 < b.2))
 
-/-- `heappop`: a smallest tuple and the remaining entries (`none` = IndexError on an empty heap) -/
-def extractMin : List (W × Nat) → Option ((W × Nat) × List (W × Nat))
-  | [] => none
-  | a :: r =>
-    match extractMin r with
-    | none => some (a, [])
-    | some (b, r') => if tlt b a then some (b, a :: r') else some (a, r)
+/-- `_rebuild_heap`: `self._heap = [(v, k) for k, v in self.items()]; heapify(self._heap)` -/
+def rebuild (dict : List (Nat × W)) : List (W × Nat) := Heapq.heapify tlt (dict.map (fun p => (p.2, p.1)))
 
-/-- `priority_dict(d)`: `_rebuild_heap` -/
-def rebuild (dict : List (Nat × W)) : List (W × Nat) := dict.map (fun p => (p.2, p.1))
-
+/-- `priority_dict(d)` -/
 def ofDict (dict : List (Nat × W)) : PD W := { dict := dict, heap := rebuild dict }
 
 /-- `pd[key] = val` -/
 def setitem (pd : PD W) (k : Nat) (v : W) : PD W :=
-  let dict := (k, v) :: pd.dict.filter (fun p => p.1 ≠ k)      -- dict.__setitem__
-  if pd.heap.length < 2 * dict.length then { dict := dict, heap := (v, k) :: pd.heap }   -- heappush
+  let dict := dictSet pd.dict k v                                     -- `super().__setitem__(key, val)`
+  if pd.heap.length < 2 * dict.length then { dict := dict, heap := Heapq.heappush tlt pd.heap (v, k) }
   else { dict := dict, heap := rebuild dict }
 
 /-- `k in self and self[k] == v` -/
@@ -53,7 +54,7 @@ def current (dict : List (Nat × W)) (k : Nat) (v : W) : Bool :=
 def popLoop (dict : List (Nat × W)) : Nat → List (W × Nat) → Option (Nat × List (W × Nat))
   | 0, _ => none
   | f+1, heap =>
-    match extractMin heap with
+    match Heapq.heappop tlt heap with
     | none => none
     | some (m, rest) => if current dict m.2 m.1 then some (m.2, rest) else popLoop dict f rest
 
@@ -62,6 +63,9 @@ def popSmallest (pd : PD W) : Option (Nat × PD W) :=
   match popLoop pd.dict (pd.heap.length + 1) pd.heap with
   | none => none
   | some (k, heap) => some (k, { dict := pd.dict.filter (fun p => p.1 ≠ k), heap := heap })   -- `del self[k]`
+
+/-- the state a `pop_smallest()` that raised IndexError leaves: `heappop` has emptied `_heap` (every tuple was stale) -/
+def afterFailedPop (pd : PD W) : PD W := { pd with heap := [] }
 
 /-- `len(pd)` -/
 def len (pd : PD W) : Nat := pd.dict.length
